@@ -2,6 +2,7 @@ package conf
 
 import (
 	"fmt"
+	"math"
 	"reflect"
 	"strconv"
 	"time"
@@ -85,6 +86,9 @@ var DefaultCoercers = struct {
 		case int:
 			return v, nil
 		case int64:
+			if int64(int(v)) != v {
+				return nil, fmt.Errorf("failed to coerce int64 to int: value out of range: %v", v)
+			}
 			return int(v), nil
 		case int32:
 			return int(v), nil
@@ -95,6 +99,10 @@ var DefaultCoercers = struct {
 			}
 			return convVal, nil
 		case float64:
+			// NaN, Inf and values whose integer part does not fit in an int have no int representation
+			if t := math.Trunc(v); math.IsNaN(t) || t < float64(math.MinInt) || t >= -float64(math.MinInt) {
+				return nil, fmt.Errorf("failed to coerce float64 to int: value out of range: %v", v)
+			}
 			return int(v), nil
 		case bool:
 			if v {
